@@ -22,11 +22,11 @@
 #define VF_L CBOR_MAX_STACK_SIZE
 
 enum {
-  K_DECODED = VC_USER, K_CONSTRUCTED, K_OUTSIDE, K_NODES, K_SHARED, K_PARTIAL, K_BUFSIZES, K_BYTES_CMP, K_ROUNDTRIPS, K_NAN, K_SUFFIXES, K_CONCATS, K_ITEMS_SPLIT, K_CORPUS, K_WIDE, K_LOSSY,
+  K_DECODED = VC_USER, K_CONSTRUCTED, K_OUTSIDE, K_NODES, K_SHARED, K_PARTIAL, K_BUFSIZES, K_BYTES_CMP, K_ROUNDTRIPS, K_NAN, K_SUFFIXES, K_CONCATS, K_ITEMS_SPLIT, K_CORPUS, K_WIDE, K_LOSSY, K_ZERO_TAILS,
   K_ENC0 /* PROP 7: encoder counters live in chk_encode.c slots */
 };
 static unsigned bn_max, dfs_k, cdepth;
-static uint64_t bn_units, dfs_units, con_units, enc_units, cat_units, cor_units, wide_units, dfs1_units;
+static uint64_t bn_units, dfs_units, con_units, enc_units, cat_units, cor_units, wide_units, dfs1_units, zero_units;
 static vf_sb why, sb2;
 
 #if PROP == 7
@@ -400,6 +400,34 @@ static void c14_bn_cb(const uint8_t* b, size_t n, void* ctx) {
   (void)ctx;
   c14_x(b, n);
 }
+/* x ending in a zero-length / zero-count item written with a longer-than-needed head (98 00, 9a 00000000, bb 00.., 5a 00000000 ..): complete at
+ * its own head, so whatever the decoder does "for the first element" looks at y. Prefix: every sequence of <= 2 heads of Sigma' that leaves
+ * the reference waiting for exactly such an item (or nothing at all) */
+static const char* ZERO_HEX[] = {"9800", "990000", "9a00000000", "9b0000000000000000", "b800", "b90000", "ba00000000", "bb0000000000000000", "5800", "590000", "5a00000000",
+                                 "5b0000000000000000", "7800", "790000", "7a00000000", "7b0000000000000000", "d81880", "c2a0"};
+#define NZERO (sizeof ZERO_HEX / sizeof ZERO_HEX[0])
+static void zero_unit(uint64_t u) {
+  size_t nt = VF_SIGMA1.ntoks;
+  /* u in [0, (nt+1)^2): two optional prefix heads */
+  size_t a = u / (nt + 1), b = u % (nt + 1);
+  if (a == nt && b != nt) return; /* (none, t) is enumerated as (t, none) */
+  uint8_t x[64];
+  size_t n = 0;
+  if (a < nt) { memcpy(x + n, VF_SIGMA1.toks[a].b, VF_SIGMA1.toks[a].n); n += VF_SIGMA1.toks[a].n; }
+  if (b < nt) { memcpy(x + n, VF_SIGMA1.toks[b].b, VF_SIGMA1.toks[b].n); n += VF_SIGMA1.toks[b].n; }
+  for (unsigned z = 0; z < NZERO; z++) {
+    size_t zl = vf_unhex(x + n, sizeof x - n, ZERO_HEX[z]);
+    /* close what the prefix opened with as many copies as needed (up to 3): c14_x keeps only the acceptable ones */
+    size_t m = n + zl;
+    for (unsigned rep = 0; rep < 3; rep++) {
+      vf_cnt(K_ZERO_TAILS, 1);
+      c14_x(x, m);
+      if (m + zl > sizeof x) break;
+      memcpy(x + m, x + n, zl);
+      m += zl;
+    }
+  }
+}
 /* concatenations of up to 6 items from an 8-item alphabet: the advance-by-read loop must split them exactly */
 static const char* CAT_HEX[8] = {"00", "6161", "8201f6", "a1016162", "5f4101ff", "c1820203", "f97e00", "9f81a0ff"};
 static void cat_unit(uint64_t u) {
@@ -513,6 +541,8 @@ static void unit(uint64_t u) {
   u -= dfs_units;
   if (u < cat_units) { cat_unit(u); return; }
   u -= cat_units;
+  if (u < zero_units) { zero_unit(u); return; }
+  u -= zero_units;
   vf_dfs_unit(&VF_SIGMA1, vf_tier ? 6 : 5, u, VF_L, va_cap, c14_seq_cb, NULL); /* deeper, structural alphabet */
 #else
   if (u < bn_units) { vf_bn_unit(bn_max, u, bn_cb, NULL); return; }
@@ -537,7 +567,7 @@ static void unit(uint64_t u) {
 #endif
 #endif
 }
-static uint64_t units(void) { return bn_units + dfs_units + con_units + cor_units + wide_units + enc_units + cat_units + dfs1_units; }
+static uint64_t units(void) { return bn_units + dfs_units + con_units + cor_units + wide_units + enc_units + cat_units + dfs1_units + zero_units; }
 static void init(void) {
   vf_enum_init();
   vf_sets_init();
@@ -550,6 +580,7 @@ static void init(void) {
   dfs_units = vf_dfs_units(&VF_SIGMA);
   cat_units = 64;
   dfs1_units = vf_dfs_units(&VF_SIGMA1);
+  zero_units = (VF_SIGMA1.ntoks + 1) * (VF_SIGMA1.ntoks + 1);
   /* suffix set Y: empty, every single byte, every head of Sigma, a few complete items, garbage */
   add_y((const uint8_t*)"", 0);
   for (unsigned v = 0; v < 256; v++) {
@@ -674,7 +705,7 @@ struct vf_check vf_the_check = {
                  [K_SHARED] = "trees_with_shared_subitems", [K_PARTIAL] = "trees_with_partially_filled_definite_containers", [K_BUFSIZES] = "buffer_sizes_tried",
                  [K_BYTES_CMP] = "byte_exact_comparisons", [K_ROUNDTRIPS] = "load_of_serialization", [K_NAN] = "trees_with_NaN", [K_SUFFIXES] = "xy_pairs",
                  [K_CONCATS] = "concatenations", [K_ITEMS_SPLIT] = "items_split", [K_CORPUS] = "boundary_corpus_items", [K_WIDE] = "wide_partially_filled_definite_containers",
-                 [K_LOSSY] = "trees_with_half_items_holding_non_half_values",
+                 [K_LOSSY] = "trees_with_half_items_holding_non_half_values", [K_ZERO_TAILS] = "x_candidates_ending_in_a_zero_count_item_with_a_long_head",
 #if PROP == 7
                  [VC_USER + 24] = "encoder_buffer_sizes_tried", [VC_USER + 25] = "encoder_calls_with_too_small_buffer",
 #endif
